@@ -171,6 +171,15 @@ class Check:
             sys.stderr.write("  violation %s :: %s\n" % (sig, r.viol[sig][:400]))
         if len(fresh) > cap:
             sys.stderr.write("  ... and %d more distinct violating cases\n" % (len(fresh) - cap))
+            # summary by signature class (first two fields + last field), so that every kind of failure is visible
+            classes = {}
+            for sig in fresh:
+                p = sig.split("|")
+                k = "|".join(p[:2]) + " ... " + (p[-1] if len(p) > 3 else "")
+                classes.setdefault(k, [0, sig])
+                classes[k][0] += 1
+            for k, (n, ex) in sorted(classes.items(), key=lambda kv: -kv[1][0])[:40]:
+                sys.stderr.write("  class %-60s %6d  e.g. %s :: %s\n" % (k[:60], n, ex[:120], r.viol[ex][:160]))
         for fid, (f, sig) in sorted(known_hit.items()):
             print("KNOWN-FINDING: property=%s %s [%s] (e.g. %s)" % (self.prop, f["what"], fid, sig[:160]))
         self._write_evidence(len(fresh), known=len(known_hit))
